@@ -305,3 +305,47 @@ func verifHarness_C14_send_queue_write_failure_during_callback() {
 	verifAssertD(closes == 1, "close-callback-exactly-once", "write-failure")
 	verifAssert(false, "witness")
 }
+
+// a BOUNDED send queue (BlockingModSendQueueMaxSize > 0) that fills up while
+// fragmented messages are being queued: a message is either on the wire whole
+// or refused whole.
+func verifHarness_C14_send_queue_bounded_two_writers() {
+	verifBound("writers", 2)
+	verifBound("queue_max", 2)
+	verifBound("preemptions", 1)
+	verifC14Writers(true, 2, 2, 1, "send-queue-bounded")
+	verifAssert(false, "witness")
+}
+
+// one writer, a message of three frames against a bounded send queue of two:
+// if the message cannot be queued whole it must not be queued in part (the
+// peer would be left inside a fragmented message that never ends).
+func verifHarness_C14_send_queue_bounded_long_message() {
+	verifBound("queue_max", 2)
+	verifBound("preemptions", 1)
+	ep := verifNewEndpoint(false, false, 0, nil)
+	ep.u.BlockingModSendQueueInitSize = 2
+	ep.u.BlockingModSendQueueMaxSize = 2
+	ep.c = newConn(ep.u, ep.fake, "", false, true, false)
+	ep.c.Execute = func(f func()) bool { f(); return true }
+	ep.eng.MaxWebsocketFramePayloadSize = 2
+	ep.fake.yield = true
+	verifSched(true, 1)
+	var e1, e2 error
+	verifGo(func() {
+		e1 = ep.c.WriteMessage(BinaryMessage, []byte{'A', 'A', 'A', 'A', 'A'}) // three frames
+		e2 = ep.c.WriteMessage(BinaryMessage, []byte{'B'})
+	})
+	verifJoin()
+	want := map[byte]int{}
+	if e1 == nil {
+		want['A'] = 1
+	} else {
+		verifReach("long-message-refused")
+	}
+	if e2 == nil {
+		want['B'] = 1
+	}
+	verifCheckFrameStream(ep.fake.wire(), want, "send-queue-bounded/long-message")
+	verifAssert(false, "witness")
+}
